@@ -1,0 +1,49 @@
+//go:build verif
+
+package lalr
+
+// Read-only accessors for the verification harness (build tag `verif`).
+
+// VerifLA is one reduce transition with its lookahead symbol ids.
+type VerifLA struct {
+	State int
+	Rule  int
+	LA    []int
+}
+
+// VerifLookaheads returns, for every reduce transition, (state, rule, lookahead ids).
+func (lalr *LALR1) VerifLookaheads() []VerifLA {
+	res := []VerifLA{}
+	for _, tr := range lalr.trans {
+		if tr.sym_or_rule&CheckMask != 0 {
+			res = append(res, VerifLA{
+				State: tr.q,
+				Rule:  int(tr.sym_or_rule & Mask),
+				LA:    append([]int{}, lalr.LookAheadSet[tr.Index]...),
+			})
+		}
+	}
+	return res
+}
+
+// VerifTran is one entry of the sorted transition list.
+type VerifTran struct {
+	Index, Q, To int
+	IsReduce     bool
+	SymOrRule    int
+}
+
+// VerifTrans returns the transition list in its internal order.
+func (lalr *LALR1) VerifTrans() []VerifTran {
+	res := []VerifTran{}
+	for _, tr := range lalr.trans {
+		res = append(res, VerifTran{
+			Index:     tr.Index,
+			Q:         tr.q,
+			To:        tr.to,
+			IsReduce:  tr.sym_or_rule&CheckMask != 0,
+			SymOrRule: int(tr.sym_or_rule & Mask),
+		})
+	}
+	return res
+}
